@@ -118,7 +118,11 @@ pub fn parse_arguments(to_parse: &str) -> Result<Vec<Unifiable>, String> {
                     }
                     num_quotes = 0;
 
-                    let term = make_term(s2, has_digit, has_non_digit, has_period)?;
+                    // A blank inside an argument (1 2) makes it an atom,
+                    // as in parse_term().
+                    let inner_blank = s2.contains(char::is_whitespace);
+                    let term = make_term(s2, has_digit,
+                                         has_non_digit || inner_blank, has_period)?;
                     term_list.push(term);
                     argument    = "".to_string();
                     has_digit   = false;
@@ -162,7 +166,9 @@ pub fn parse_arguments(to_parse: &str) -> Result<Vec<Unifiable>, String> {
                 }
                 else {
                     argument.push(ch);
-                    if ch > ' ' { has_non_digit = true; }
+                    // Blanks around an argument are trimmed off. A blank
+                    // inside it is dealt with when the term is made.
+                    if !ch.is_whitespace() { has_non_digit = true; }
                 }
             }
             else {
@@ -185,7 +191,9 @@ pub fn parse_arguments(to_parse: &str) -> Result<Vec<Unifiable>, String> {
             None => {},
         }
 
-        let term = make_term(s2, has_digit, has_non_digit, has_period)?;
+        let inner_blank = s2.contains(char::is_whitespace);
+        let term = make_term(s2, has_digit,
+                             has_non_digit || inner_blank, has_period)?;
         term_list.push(term);
     }
 
